@@ -4,6 +4,9 @@ import ApolloModel.Proofs.ExecValidationMerge
 import ApolloModel.Proofs.ExecValidationMerge2
 import ApolloModel.Proofs.ExecValidationCache
 import ApolloModel.Proofs.ExecRules2
+import ApolloModel.Proofs.ExecRules3
+import ApolloModel.Proofs.ExpandSelections
+import ApolloModel.Proofs.ExpandSelections2
 /-
 C17 — Executable validation agrees with the specification.
 
@@ -16,23 +19,24 @@ Spec (Spec/ExecValidation.lean): written from the October-2021 text.  The docume
 
 INVENTORY — every rule of the oracle harness/src/specexec.rs and its Lean counterpart
 (model = transliteration of apollo's code; `…_iff_spec` = theorem below; stream = correspondence)
-  §5.1.1   ExecutableDefinitions            model Standalone.build (TypeSystemDefinition), stream c17.ops; no theorem
-  §5.2.1.1 OperationNameUniqueness          operation_name_uniqueness_iff_spec            c17.ops
+  §5.1.1   ExecutableDefinitions            executable_definitions_iff_spec               c17.ops
+  §5.2.1.1 OperationNameUniqueness          operation_name_uniqueness_iff_spec; unconditional with §5.2.2.1 and the root types: operation_definitions_iff_spec   c17.ops
   §5.2.2.1 LoneAnonymousOperation           lone_anonymous_operation_iff_spec             c17.ops
   §5.2.3.1 SingleRootField                  subscription_root_iff                         c17.subscription
   §5.3.1   FieldSelections                  field_selections_iff_spec (meta-fields incl.) c17.fields
-  §5.3.2   FieldSelectionMerging            xing_iff_pairwise, same_value_iff_spec, same_output_type_shape_iff, xing_cache_transparent
+  §5.3.2   FieldSelectionMerging            xing_iff_pairwise, same_value_iff_spec, same_output_type_shape_iff, xing_cache_transparent,
+                                            expand_selections_iff_spec + merging_from_selection_sets (the expansion itself; c17.expand)
                                                                                           c17.merge/.mergecached/.mergespec/.shape/.samevalue
-  §5.3.3   LeafFieldSelections              field_selections_iff_spec (no sub-selection on a leaf); the converse half
-                                            (MissingSubselection) model + stream only     c17.fields
+  §5.3.3   LeafFieldSelections              field_selections_iff_spec (no sub-selection on a leaf); missing_subselection_iff_spec
+                                            (a composite field needs one; at the field node)   c17.fields
   §5.4.1   ArgumentNames                    argument_names_iff_spec                       c17.args
   §5.4.2   ArgumentUniqueness               argument_uniqueness_iff_spec                  c17.args
   §5.4.2.1 RequiredArguments                required_arguments_iff_spec                   c17.args
-  §5.5.1.1 FragmentNameUniqueness           fragment_name_uniqueness_iff_spec             c17.frags
-  §5.5.1.2 FragmentSpreadTypeExistence      inline conditions: field_selections_iff_spec; named: model + stream   c17.frags
-  §5.5.1.3 FragmentsOnCompositeTypes        model (Standalone InvalidFragmentTarget) + stream c17.frags; no theorem
+  §5.5.1.1 FragmentNameUniqueness           fragment_name_uniqueness_iff_spec; unconditional with §5.5.1.2: fragment_definitions_iff_spec   c17.frags
+  §5.5.1.2 FragmentSpreadTypeExistence      inline conditions: field_selections_iff_spec; named: fragment_definitions_iff_spec   c17.frags
+  §5.5.1.3 FragmentsOnCompositeTypes        fragments_on_composite_types_iff_spec, inline_fragment_on_composite_type_spec (at the node)   c17.frags
   §5.5.1.4 FragmentsMustBeUsed              used_fragments_iff                            c17.unusedfrag, c17.frags
-  §5.5.2.1 FragmentSpreadTargetDefined      model (Standalone UndefinedFragment) + stream c17.frags; C18 valid_leaf_shape_spreads_defined_partial
+  §5.5.2.1 FragmentSpreadTargetDefined      fragment_spread_target_defined_iff_spec (at the spread); C18 valid_leaf_shape_spreads_defined_partial   c17.frags
   §5.5.2.2 FragmentSpreadsMustNotFormCycles C21 fragment_cycle_sound (+ C18)              c17.frags
   §5.5.2.3 FragmentSpreadIsPossible         fragment_spread_possible_iff_spec, possible_types_spec   c17.frags
   §5.6.1–4 ValuesOfCorrectType, InputObjectFieldNames / FieldUniqueness / RequiredFields
@@ -383,19 +387,125 @@ theorem fragment_name_uniqueness_iff_spec (s : Option Standalone.Schema) (ast : 
     .fragmentNameCollision ∈ (Standalone.build s ast).diags ↔ ¬ FragmentNamesUnique ast :=
   fragment_name_uniqueness_iff s ast h
 
+/-- §5.1.1 Executable Definitions -/
+theorem executable_definitions_iff_spec (s : Option Standalone.Schema) (ast : Standalone.Ast) :
+    .typeSystemDefinition ∈ (Standalone.build s ast).diags ↔ Standalone.Def.typeSystem ∈ ast :=
+  executable_definitions_iff s ast
+
+/-- §5.5.1.1 + §5.5.1.2 (named fragments) WITHOUT A GUARD: the document is rejected for a fragment
+    definition iff two fragments have the same name or a type condition names no defined type -/
+theorem fragment_definitions_iff_spec (s : Option Standalone.Schema) (ast : Standalone.Ast) :
+    (.fragmentNameCollision ∈ (Standalone.build s ast).diags ∨
+        .undefinedTypeInNamedFragmentTypeCondition ∈ (Standalone.build s ast).diags) ↔
+      (¬ FragmentNamesUnique ast ∨ ¬ FragmentConditionsDefined s ast) :=
+  fragment_definitions_iff s ast
+
+/-- §5.2.1.1 + §5.2.2.1 + root operation types WITHOUT A GUARD -/
+theorem operation_definitions_iff_spec (s : Option Standalone.Schema) (ast : Standalone.Ast) :
+    (.ambiguousAnonymousOperation ∈ (Standalone.build s ast).diags ∨ .operationNameCollision ∈ (Standalone.build s ast).diags ∨
+        .undefinedRootOperation ∈ (Standalone.build s ast).diags) ↔
+      (¬ LoneAnonymousOperation ast ∨ ¬ OperationNamesUnique ast ∨ ¬ RootTypesDefined s ast) :=
+  operation_definitions_iff s ast
+
+/-- §5.3.3, second half (`MissingSubselection`), at a field without sub-selection -/
+theorem missing_subselection_iff_spec (p : Standalone.Params) (sc : Standalone.Schema) (doc : Standalone.BuiltDoc)
+    (enter : Standalone.Frag → List Nat → List Standalone.Diag × List Nat) (t name : Nat) (dirs : List Standalone.Dir)
+    (args : List Standalone.Arg) (V : List Nat) (fd : Standalone.FieldDef) (hf : sc.field t name = some fd) :
+    .missingSubselection ∈ (Standalone.walkSels p (some sc) doc enter (some t) (.field name dirs args .nil .nil) V).1 ↔
+      sc.kind fd.ty = some .composite :=
+  missing_subselection_iff p sc doc enter t name dirs args V fd hf
+
+/-- §5.5.1.3 Fragments On Composite Types, at a fragment definition: reported (and the body skipped) when
+    the type condition is not composite; with a composite one the definition adds nothing of its own -/
+theorem fragments_on_composite_types_iff_spec (p : Standalone.Params) (sc : Standalone.Schema) (doc : Standalone.BuiltDoc)
+    (n : Nat) (f : Standalone.Frag) (V : List Nat) :
+    (sc.kind f.tc ≠ some .composite →
+      .invalidFragmentTarget ∈ (Standalone.enterFrag p (some sc) doc (n + 1) f V).1 ∧
+        (Standalone.enterFrag p (some sc) doc (n + 1) f V).2 = V) ∧
+    (sc.kind f.tc = some .composite → f.name ∉ Standalone.reach doc f.sels →
+      Standalone.enterFrag p (some sc) doc (n + 1) f V =
+        (Standalone.dirDiags p (some sc) .fragmentDefinition f.dirs ++
+            (Standalone.walkSels p (some sc) doc (Standalone.enterFrag p (some sc) doc n) (Standalone.fragTy (some sc) f) f.sels V).1,
+          (Standalone.walkSels p (some sc) doc (Standalone.enterFrag p (some sc) doc n) (Standalone.fragTy (some sc) f) f.sels V).2)) :=
+  ⟨fragment_on_non_composite_reported p sc doc n f V, fragment_on_composite_walks_body p sc doc n f V⟩
+
+/-- §5.5.1.3 at an inline fragment -/
+theorem inline_fragment_on_composite_type_spec (p : Standalone.Params) (sc : Standalone.Schema) (doc : Standalone.BuiltDoc)
+    (enter : Standalone.Frag → List Nat → List Standalone.Diag × List Nat) (ty : Option Nat) (t : Nat)
+    (dirs : List Standalone.Dir) (sub rest : Standalone.Sels) (V : List Nat) (h : sc.kind t ≠ some .composite) :
+    .invalidFragmentTarget ∈ (Standalone.walkSels p (some sc) doc enter ty (.inline (some t) dirs sub rest) V).1 :=
+  inline_on_non_composite_reported p sc doc enter ty t dirs sub rest V h
+
+/-- §5.5.2.1 Fragment Spread Target Defined, at a spread -/
+theorem fragment_spread_target_defined_iff_spec (p : Standalone.Params) (s : Option Standalone.Schema) (doc : Standalone.BuiltDoc)
+    (enter : Standalone.Frag → List Nat → List Standalone.Diag × List Nat) (ty : Option Nat) (f : Nat)
+    (dirs : List Standalone.Dir) (V : List Nat) :
+    (Standalone.walkSels p s doc enter ty (.spread f dirs .nil) V).1 =
+      Standalone.dirDiags p s .fragmentSpread dirs ++
+        (match doc.findFrag f with
+         | some d => if f ∈ V then [] else (enter d (f :: V)).1
+         | none => [.undefinedFragment]) :=
+  spread_target_defined_iff p s doc enter ty f dirs V
+
+/-- GetPossibleTypes (§5.5.2.3) -/
+theorem possible_types_spec (s : RSchema) (t : TypeInfo) (h : s.typeInfo? t.name = some t) :
+    s.possibleTypes t.name =
+      (match t.kind with
+       | .object _ => [t.name]
+       | .interface _ => (s.types.filter fun o => match o.kind with | .object is => is.contains t.name | _ => false).map (·.name)
+       | .union ms => ms
+       | _ => []) :=
+  ExecRules.possible_types_spec s t h
+
+/-! `expand_selections`: the expansion the merging algorithm starts from -/
+section Expansion
+open Apollo.Expand
+
+/-- `expand_selections` (breadth-first queue of selection sets, `seen_fragments`) lists EXACTLY the
+    fields of the given selection sets and of every fragment reachable from them through spreads, inline
+    fragments looked into, each with the type of the selection set it is written in: what the
+    specification calls "the set of selections … including visiting fragments and inline fragments".
+    The loop terminates: `fuelFor` iterations empty the queue, whatever the fragments (cycles included). -/
+theorem expand_selections_iff_spec (frags : Frags) (sets : List ESet) (x : String × Nat) :
+    x ∈ expand frags sets ↔ Expanded frags sets x := expand_iff frags sets x
+
+/-- so field merging can start from the selection sets of the document: XING on apollo's expansion =
+    the pairwise rule on any listing of those fields (depth-first, any order, with or without repetition) -/
+theorem merging_from_selection_sets (mk : String × Nat → AField) (n : Nat) (frags : Frags) (sets : List ESet)
+    (L : List (String × Nat)) (hL : ∀ x, x ∈ L ↔ Expanded frags sets x) :
+    xingCanMerge n ((expand frags sets).map mk) = documentFieldsCanMerge n (L.map mk) :=
+  Expand.merging_from_selection_sets mk n frags sets L hL
+
+/-- apollo's breadth-first expansion and the depth-first CollectFields-style expansion (every named fragment
+    once; the one the oracle and the streams c17.merge / c17.mergespec / c17.expand use) list the same
+    fields, for every document and fragment graph -/
+theorem expand_eq_flatten_spec (frags : Frags) (sets : List ESet) (x : String × Nat) :
+    x ∈ expand frags sets ↔ x ∈ (flatten frags sets).out := expand_eq_flatten frags sets x
+
+/-- a cyclic spread does not hang the expansion: `{ ...A } fragment A { f0 ...B } fragment B { f1 ...A }` -/
+theorem expand_cycle_witness :
+    expand [("A", ("T", [.field 0, .spread "B"])), ("B", ("U", [.field 1, .spread "A"]))] [("Q", [.spread "A", .inline "V" [.field 2]])] =
+      [("T", 0), ("V", 2), ("U", 1)] := by decide
+
+end Expansion
+
 /-- THE COVERED RULES, TOGETHER (partial: see the inventory at the top for what stays outside — values
     §5.6, the directive rules (C14), fragment cycles (C21), merging and subscriptions (sections 1–5),
     FragmentsOnCompositeTypes / FragmentSpreadTargetDefined / MissingSubselection (model + stream)).
-    For a document all of whose operations have a root type and all of whose fragment conditions are
-    defined: the document-building phase reports no name collision / ambiguity / selection error and
-    each operation's variable definitions and usages report nothing, exactly when the corresponding
-    specification rules hold. -/
-theorem executable_verdict_iff_spec_partial (p : Standalone.Params) (sc : Standalone.Schema) (ast : Standalone.Ast)
-    (hops : AllOpsBuild (some sc) ast) (hfrags : AllFragsBuild (some sc) ast) :
-    ((.operationNameCollision ∉ (Standalone.build (some sc) ast).diags ∧
-      .ambiguousAnonymousOperation ∉ (Standalone.build (some sc) ast).diags ∧
-      .fragmentNameCollision ∉ (Standalone.build (some sc) ast).diags) ↔
-        (OperationNamesUnique ast ∧ LoneAnonymousOperation ast ∧ FragmentNamesUnique ast)) ∧
+    Unconditional (no guard on the document): the document-building phase reports a type-system definition,
+    an operation problem (ambiguity / name collision / undefined root type), a fragment-definition problem
+    (name collision / undefined type condition) or a selection error exactly when the corresponding
+    specification rules fail; likewise each operation's variable definitions, unused variables and every
+    argument list.  The checks of the validation walk (MissingSubselection, FragmentsOnCompositeTypes,
+    FragmentSpreadTargetDefined) are the node-level theorems above; §5.8.3 / §5.8.5 / §5.5.2.3 the typed ones. -/
+theorem executable_verdict_iff_spec_partial (p : Standalone.Params) (sc : Standalone.Schema) (ast : Standalone.Ast) :
+    (.typeSystemDefinition ∈ (Standalone.build (some sc) ast).diags ↔ Standalone.Def.typeSystem ∈ ast) ∧
+    ((.ambiguousAnonymousOperation ∈ (Standalone.build (some sc) ast).diags ∨ .operationNameCollision ∈ (Standalone.build (some sc) ast).diags ∨
+        .undefinedRootOperation ∈ (Standalone.build (some sc) ast).diags) ↔
+      (¬ LoneAnonymousOperation ast ∨ ¬ OperationNamesUnique ast ∨ ¬ RootTypesDefined (some sc) ast)) ∧
+    ((.fragmentNameCollision ∈ (Standalone.build (some sc) ast).diags ∨
+        .undefinedTypeInNamedFragmentTypeCondition ∈ (Standalone.build (some sc) ast).diags) ↔
+      (¬ FragmentNamesUnique ast ∨ ¬ FragmentConditionsDefined (some sc) ast)) ∧
     (∀ parent sels, (Standalone.buildSels (some sc) parent sels).2 = [] ↔ SelectionsWellTyped sc parent sels) ∧
     (∀ vs : List Standalone.VarDef,
       (.uniqueVariable ∉ Standalone.varDefDiags p (some sc) [] vs ∧ .variableInputType ∉ Standalone.varDefDiags p (some sc) [] vs ∧
@@ -405,9 +515,8 @@ theorem executable_verdict_iff_spec_partial (p : Standalone.Params) (sc : Standa
     (∀ defs as, (Standalone.uniqueArgs [] as = [] ∧ Standalone.undefinedArgs defs as = [] ∧ Standalone.requiredArgs defs as = []) ↔
       ((as.map (·.name)).Nodup ∧ (∀ a ∈ as, ∃ d ∈ defs, d.name = a.name) ∧
         ∀ d ∈ defs, d.required = true → ∃ a, as.find? (fun a => a.name == d.name) = some a ∧ a.value.isNull = false)) := by
-  refine ⟨?_, fun parent sels => field_selections_iff sc sels parent, ?_, all_variables_used_iff, ?_⟩
-  · rw [operation_name_uniqueness_iff _ _ hops, lone_anonymous_operation_iff _ _ hops, fragment_name_uniqueness_iff _ _ hfrags]
-    simp only [Classical.not_not]
+  refine ⟨executable_definitions_iff _ ast, operation_definitions_iff _ ast, fragment_definitions_iff _ ast,
+    fun parent sels => field_selections_iff sc sels parent, ?_, all_variables_used_iff, ?_⟩
   · intro vs
     have h1 := variable_uniqueness_iff p (some sc) vs
     have h2 := variables_are_input_types_iff p sc vs []
